@@ -5,7 +5,7 @@
    [outs] = the (member, value) pairs among them; [yields t] = the (key, value) pairs the group returned. *)
 From Coq Require Import List Arith Bool.
 Import ListNotations.
-Require Import ScanFull InstsFull ObligGroups C11Groups C02Join C02Groups LiveGroups.
+Require Import ScanFull InstsFull ObligGroups C11Groups C02Join C02Groups Counting LiveGroups.
 
 Section C12.
   Variables (selective: bool) (cap0: nat) (ops: list op).
